@@ -43,7 +43,8 @@ func validateContentType(allowed []string, actual string) error {
 	if err != nil {
 		return errors.InvalidContentType(actual, allowed)
 	}
-	if swag.ContainsStringsCI(allowed, mt) {
+	// consumes entries may carry parameters ("application/json; charset=utf-8"): compare their media types only
+	if swag.ContainsStringsCI(normalizeOffers(allowed), mt) {
 		return nil
 	}
 	if swag.ContainsStringsCI(allowed, "*/*") {
